@@ -970,6 +970,80 @@ def gen_mr_publish():
             f"  if save_centroids then {coq_acts(t)}\n  else {coq_acts(f)}.")
 
 
+def gen_mr_batch_plan():
+    """_chunk_file_pairs_in_batches and _get_files_range_tuples: how tasks are formed and labelled.
+    Shape checks (fail closed): the batches are exactly
+        [(str(i).zfill(z), _sort_batch(b)) for i, b in enumerate(batched(file_pairs, bin_size))]
+    with the UNMODIFIED parameters, called from run_multiround_bitbirch as
+    _chunk_file_pairs_in_batches(file_pairs, bin_size, console); the file tasks are labelled
+    str(i).zfill(z) in input order with running start/end indices.  The two width expressions z are
+    translated."""
+    tree = ast.parse((REPO / "bblean/multiround.py").read_text())
+    fn = find_func(tree, "_chunk_file_pairs_in_batches")
+    params = [a.arg for a in fn.args.args + fn.args.kwonlyargs]
+    if params != ["file_pairs", "bin_size", "console"]:
+        raise Unsupported(f"_chunk_file_pairs_in_batches: parameters changed: {params}")
+    zexpr, comp, ret = None, None, None
+    for st in fn.body:
+        if isinstance(st, ast.Expr) and isinstance(st.value, ast.Constant):
+            continue
+        if isinstance(st, ast.Assign) and len(st.targets) == 1 and isinstance(st.targets[0], ast.Name):
+            nm = st.targets[0].id
+            if nm == "z" and zexpr is None:
+                zexpr = st.value
+                continue
+            if nm == "batches" and comp is None:
+                comp = st.value
+                continue
+            raise Unsupported(f"line {st.lineno}: _chunk_file_pairs_in_batches assigns {nm}")
+        if isinstance(st, ast.If) and not any(isinstance(n, (ast.Assign, ast.AugAssign, ast.Return, ast.NamedExpr))
+                                              for n in ast.walk(st)):
+            continue                          # console output
+        if isinstance(st, ast.Return):
+            ret = st.value
+            continue
+        raise Unsupported(f"line {st.lineno}: _chunk_file_pairs_in_batches: unrecognised statement")
+    want = "[(str(i).zfill(z), _sort_batch(b)) for i, b in enumerate(batched(file_pairs, bin_size))]"
+    if comp is None or ast.unparse(comp) != want or zexpr is None \
+            or not (isinstance(ret, ast.Name) and ret.id == "batches"):
+        raise Unsupported("_chunk_file_pairs_in_batches: the batch plan is not the recognised comprehension")
+    ctx = Ctx({"n_pairs": ("n_pairs", "int"), "bin_size": ("bin_size", "int")}, "int", {}, {}, False)
+
+    class LenPairs(ast.NodeTransformer):
+        def visit_Call(self, n):
+            if ast.unparse(n) == "len(file_pairs)":
+                return ast.copy_location(ast.Name(id="n_pairs", ctx=ast.Load()), n)
+            self.generic_visit(n)
+            return n
+    z1, ty = Tr(ctx).expr(ast.fix_missing_locations(LenPairs().visit(zexpr)))
+    if ty != "int":
+        raise Unsupported("batch label width is not an integer")
+    # call site
+    run = find_func(tree, "run_multiround_bitbirch")
+    calls = [c for c in ast.walk(run) if isinstance(c, ast.Call) and isinstance(c.func, ast.Name)
+             and c.func.id == "_chunk_file_pairs_in_batches"]
+    if not calls or any(ast.unparse(c) != "_chunk_file_pairs_in_batches(file_pairs, bin_size, console)" for c in calls):
+        raise Unsupported("run_multiround_bitbirch: _chunk_file_pairs_in_batches is not called with "
+                          "(file_pairs, bin_size, console)")
+    for n in ast.walk(run):
+        if isinstance(n, (ast.Assign, ast.AugAssign)):
+            tg = n.targets if isinstance(n, ast.Assign) else [n.target]
+            if any(isinstance(t, ast.Name) and t.id == "bin_size" for t in tg):
+                raise Unsupported(f"line {n.lineno}: bin_size is reassigned in run_multiround_bitbirch")
+    # file tasks
+    fr = find_func(tree, "_get_files_range_tuples")
+    src = ast.unparse(fr)
+    need = ["running_idx = 0", "z = len(str(len(files)))", "for i, file in enumerate(files):",
+            "start_idx = running_idx", "end_idx = running_idx + _get_fps_file_num(file)",
+            "files_info.append((str(i).zfill(z), file, start_idx, end_idx))", "running_idx = end_idx",
+            "return files_info"]
+    body_lines = [l.strip() for l in src.splitlines()[1:] if l.strip() and not l.strip().startswith(("'", '"'))]
+    if [l for l in body_lines if l != "files_info = []"] != need:
+        raise Unsupported("_get_files_range_tuples: the labelling / numbering loop changed")
+    return (f"Definition batch_label_width (n_pairs bin_size : Z) : Z :=\n  {z1}.\n"
+            "Definition file_label_width (n_files : Z) : Z :=\n  (Z.of_nat (String.length (str_of_Z n_files))).")
+
+
 def gen_mr():
     """bblean/multiround.py: the names of the files written by _save_bufs_and_mol_idxs"""
     out = [HEADER.format(src="bblean/multiround.py")]
@@ -978,6 +1052,7 @@ def gen_mr():
         [("out_dir", "path"), ("label", "str"), ("round_idx", "int"), ("dtype", "str")],
         {}, effects=["_numpy_streaming_save", "open"]))
     out.append(gen_mr_prev_globs())
+    out.append(gen_mr_batch_plan())
     return "\n\n".join(out) + "\n"
 
 
